@@ -2,6 +2,7 @@
 CONSTANTS
   Mods = {"A", "B"}
   Order <- Order2
+  Collide = FALSE
   Hooks <- Hooks_perm
   Flags <- Flags_perm
   CtxPersist = FALSE
